@@ -453,7 +453,7 @@ class URL:
         if path and self._netloc:
             if "." in path:
                 path = normalize_path(path)
-            if path[0] != "/":
+            if path[:1] != "/":
                 msg = (
                     "Path in a URL with authority should "
                     "start with a slash ('/') if set"
